@@ -148,7 +148,7 @@ class World:
         return core.call(gfapy.Gfa, vlevel=op.get("vlevel", 1), version=op.get("version"),
                          dialect=op.get("dialect", "standard"))
 
-    def construct(self, entry, lines, vlevel=1, version=None, dialect="standard"):
+    def construct(self, entry, lines, vlevel=1, version=None, dialect="standard", observer=None):
         """Build a Gfa through one of the entry points. Returns Outcome(value=gfa)."""
         kw = dict(vlevel=vlevel, version=version, dialect=dialect)
         if entry == "str":
@@ -177,8 +177,10 @@ class World:
         if entry == "incremental":
             def f():
                 g = gfapy.Gfa(**kw)
-                for ln in lines:
+                for n, ln in enumerate(lines):
                     g.add_line(ln)
+                    if observer is not None:
+                        observer(g, n)       # a reader interleaved with the delivery
                 g.process_line_queue()
                 if vlevel >= 1:
                     g.validate()
